@@ -165,6 +165,9 @@ func (e *Engine) Generate(prop, tier string, seed uint64, run int) *sim.Plan {
 	case "C01", "C02", "C03", "C10":
 		// replication workload; identities are mutated on their home replica only
 		w.identmut = 3
+		if prop == "C02" {
+			w.identmut = 9 // (C02: a share of them away from home, so that pulls meet refused identities)
+		}
 	case "C15":
 		w = weights{newbug: 6, edit: 16, commit: 2, push: 10, pull: 12, remove: 3, restart: 2, identmut: 2, cli: 34}
 	case "C14":
@@ -309,7 +312,7 @@ func (e *Engine) Generate(prop, tier string, seed uint64, run int) *sim.Plan {
 			// goroutines, which then go on merging a few more entities AFTER Pull has returned
 			// (each stage of the channel pipeline holds one result). That tail runs outside the
 			// simulator's control, so the one-call API is only drawn where no refusal is expected.
-			if st.Op == "pull" && r.Chance(0.5) && !faults && prop != "C09" {
+			if st.Op == "pull" && r.Chance(0.5) && !faults && prop != "C09" && prop != "C02" { // (C02 and C09 make identities diverge: refusals are expected there)
 				st.K = "pull-api" // use the one-call Pull API instead of fetch + MergeAll
 			}
 		case "restart":
